@@ -913,18 +913,18 @@ def root_on_jump(hy, vw, vp, miss, eos):
     return True, ""
 
 
-CLASS_PINNED = "matching-pinned-at-temperature-window"
+CLASS_PINNED = "narrow-temperature-window-matching"
 _DEFAULT_SOLVERS = {}
 
 
 def pinned_at_window(spec, hy, vw, Tp, Tm):
-    """Class rule of the registered finding CLASS_PINNED (non-default temperature windows
-    only): a returned temperature sits on an end of [TMinHydro, TMaxHydro] (the tan-mapped 2x2
-    solve ran into the boundary) although the matching of a default-window solver for the same
-    EOS and wall velocity reaches Tn with both temperatures strictly inside the narrow window"""
+    """Class rule of the registered finding CLASS_PINNED (family of non-default temperature
+    windows only): the window alone is the cause -- a default-window solver for the same EOS
+    and the same wall velocity reaches Tn, and both temperatures of ITS matching lie strictly
+    inside the narrow window (2 % margin), so the narrow-window solver had a solution within
+    its bounds (typically it returns a temperature pinned at a window end, or a solve started
+    from a guess clipped by the tan map that hopped elsewhere)"""
     lo, hi = hy.TMinHydro, hy.TMaxHydro
-    if not any(abs(T - b) <= 1e-4 * b for T in (Tp, Tm) for b in (lo, hi)):
-        return False
     key = json.dumps(spec, sort_keys=True)
     if key not in _DEFAULT_SOLVERS:
         _DEFAULT_SOLVERS[key] = make_hydro(spec)[1]
@@ -1004,10 +1004,10 @@ def check_matching_reaches_Tn(ctx, spec, eos, hy, vw, tag="", edge=False):
         ABSORBED.append(dict(spec=spec, vw=vw, window=(hy.TMaxHydro / Tn, hy.TMinHydro / Tn),
                              miss=miss, key=CLASS_PINNED))
         ctx.fail_input(
-            "Hydrodynamics(tmax=%g, tmin=%g): vw=%.6f: the returned matching has T+=%.6g "
-            "T-=%.6g pinned at the end of the temperature window [%.6g, %.6g] and its flow "
-            "reaches T=%.8g ahead of the front, not Tn=%.8g (rel %.2e); with the default "
-            "window the matching lies strictly inside; %s" % (
+            "Hydrodynamics(tmax=%g, tmin=%g): vw=%.6f: the flow from the returned matching (T+="
+            "%.6g T-=%.6g; window [%.6g, %.6g]) reaches T=%.8g ahead of the front, not Tn=%.8g "
+            "(rel %.2e); the default-window matching reaches Tn and lies strictly inside this "
+            "window; %s" % (
                 hy.TMaxHydro / Tn, hy.TMinHydro / Tn, vw, Tp, Tm, hy.TMinHydro, hy.TMaxHydro,
                 tn, Tn, abs(miss), spec),
             dict(kind="Tn", vp=vp, Tp=Tp, tmax=hy.TMaxHydro / Tn, tmin=hy.TMinHydro / Tn,
